@@ -22,6 +22,7 @@ func genNames(s *src, o *out) {
 	maxLen, tries := int64(-1), int64(-1)
 	format := ""
 	statShape := 0
+	sprintfs := 0
 	ast.Inspect(f.Body, func(n ast.Node) bool {
 		switch n := n.(type) {
 		case *ast.GenDecl:
@@ -54,18 +55,31 @@ func genNames(s *src, o *out) {
 				}
 			}
 		case *ast.CallExpr:
-			if s.text(n.Fun) == "fmt.Sprintf" && len(n.Args) == 3 && s.text(n.Args[1]) == "name" && s.text(n.Args[2]) == "i" {
-				format = s.evalString(n.Args[0])
+			if s.text(n.Fun) == "fmt.Sprintf" {
+				sprintfs++
+				// the candidate is Sprintf(<string literal>, name, i): the format is a constant of the
+				// source and the peer's name is only ever an ARGUMENT of it
+				if lit, ok := n.Args[0].(*ast.BasicLit); ok && lit.Kind == token.STRING && len(n.Args) == 3 &&
+					s.text(n.Args[1]) == "name" && s.text(n.Args[2]) == "i" {
+					format = s.evalString(n.Args[0])
+				}
 			}
 		}
 		return true
 	})
-	if maxLen < 0 || tries < 0 || format == "" || statShape != 7 {
-		die("getNewName has an unexpected shape (maxNameLen=%d tries=%d format=%q shape=%d)", maxLen, tries, format, statShape)
+	if maxLen < 0 || tries < 0 {
+		die("getNewName has an unexpected shape (maxNameLen=%d tries=%d)", maxLen, tries)
 	}
 	o.defN("names_max_len", maxLen)
 	o.defN("names_max_tries", tries)
+	// a candidate that is not built by exactly one Sprintf with a literal format and the arguments
+	// (name, i), or a changed existence test, is translated as "unknown": the pin lemma of
+	// Proofs/Names.v then fails (C07, C09 only), everything else stays buildable
+	if sprintfs != 1 {
+		format = ""
+	}
 	o.defBytes("names_candidate_format", format)
+	o.raw("Definition names_getnewname_shape_ok : bool := %v.\n", statShape == 7 && format != "")
 
 	// checkFileName
 	var exact []string
@@ -157,4 +171,30 @@ func genNames(s *src, o *out) {
 		}
 	}
 	o.raw("Definition names_check_in_create_file : bool := %v.\n", inCreate && shapeOK)
+
+	// checkDuplicateNames (comm.go) and its two call sites: the key of the map is the
+	// destination-relative name filepath.Join(srcFile.RelPath...), a second occurrence is an error;
+	// tsz.go (args.Overwrite) and filter.go uploadFiles (config.Overwrite) leave before anything is sent
+	dupKey, dupBody := false, false
+	if df, ok := s.funcs["checkDuplicateNames"]; ok {
+		body := s.text(df.Body)
+		dupKey = strings.Contains(body, "p := filepath.Join(srcFile.RelPath...)")
+		dupBody = body == `{ m := make(map[string]bool) for _, srcFile := range sourceFiles { p := filepath.Join(srcFile.RelPath...) if _, ok := m[p]; ok { return simpleTrzszError("Duplicate name: %s", p) } m[p] = true } return nil }`
+	}
+	o.raw("Definition names_dup_key_is_relpath : bool := %v.\n", dupKey)
+	o.raw("Definition names_dup_check_shape_ok : bool := %v.\n", dupBody)
+	guardBefore := func(fn, guard, after string) bool {
+		f, ok := s.funcs[fn]
+		if !ok {
+			return false
+		}
+		body := s.text(f.Body)
+		g := strings.Index(body, guard)
+		a := strings.Index(body, after)
+		return g >= 0 && a > g
+	}
+	o.raw("Definition names_dup_guard_tsz : bool := %v.\n", guardBefore("TszMain",
+		"if args.Overwrite { if err := checkDuplicateNames(files); err != nil { fmt.Fprintln(os.Stderr, err) return -2 } }", "::TRZSZ:TRANSFER:"))
+	o.raw("Definition names_dup_guard_upload : bool := %v.\n", guardBefore("TrzszFilter.uploadFiles",
+		"if config.Overwrite { if err := checkDuplicateNames(files); err != nil { return err } }", "transfer.sendFiles("))
 }
